@@ -12,24 +12,27 @@ EXTENDS Ledger
 
 CONSTANT NMonths
 Grid == {I(0), I(1), I(2)}
+Caps100 == [sw |-> I(100), scp |-> I(100), cs |-> I(100)]
 Z3 == [h |-> Zero, f |-> Zero, b |-> Zero]
 
 MCBegin == \E kind \in {"humans", "animals"}, w \in {I(0), I(50)}, s0 \in Grid :
   LET g == IF w = I(0) THEN I(1) ELSE I(2) IN
   Begin([kind |-> kind, gSf |-> g, wSf |-> w, gCrop |-> g, wCrop |-> w, gMeat |-> g, wMeat |-> w, gScp |-> g, wScp |-> w,
          gCs |-> g, wCs |-> w, gSw |-> g, wSw |-> w, swKcal |-> I(1), swInit |-> Zero, swInitArea |-> Zero,
-         swMinDens |-> I(1), swMaxDens |-> I(1), swLoss |-> Zero, sfInitial |-> s0])
+         swMinDens |-> I(1), swMaxDens |-> I(1), swLoss |-> Zero, sfInitial |-> s0, store |-> TRUE, popNeed |-> I(1),
+         capH |-> Caps100, capF |-> Caps100, capB |-> Caps100])
 
 MCMonth == \E crops \in {I(0), I(2)}, meat \in {I(0), I(2)}, charge \in {I(0), I(1)},
               sfh \in Grid, sff \in {I(0), I(1)}, ch \in Grid, cf \in {I(0), I(1)}, me \in Grid :
   Month([m |-> mon,
          sup |-> [crops |-> crops, meat |-> meat, scp |-> Zero, cs |-> Zero, built |-> Zero, growth |-> Zero,
-                  feed |-> charge, bio |-> Zero, milk |-> Zero, fish |-> Zero, gh |-> Zero],
+                  feed |-> charge, bio |-> Zero, chargeF |-> charge, chargeB |-> Zero, milk |-> Zero, fish |-> Zero, gh |-> Zero],
          a |-> [sf |-> [h |-> sfh, f |-> sff, b |-> Zero], crops |-> [h |-> ch, f |-> cf, b |-> Zero],
                 scp |-> Z3, cs |-> Z3, sw |-> [h |-> Zero, f |-> Zero, b |-> Zero, wet |-> Zero, area |-> Zero],
-                meat |-> me]])
+                meat |-> me],
+         pin |-> [sf |-> sfh, crops |-> ch, meat |-> me, scp |-> Zero, cs |-> Zero, sw |-> Zero]])
 
-MCFinish == mon = NMonths /\ Finish(NMonths, fedMin)
+MCFinish == mon = NMonths /\ Finish(NMonths, IF rc.kind = "humans" THEN fedMin ELSE RDiv(score, R(3, 1)))
 Next == MCBegin \/ (mon < NMonths /\ MCMonth) \/ MCFinish
 Spec == LInit /\ [][Next]_lvars
 =============================================================================
